@@ -151,7 +151,7 @@ def replay(prop, case):
     env.install()
     pr = run_edge(env.spec_by_name(case["cls"]), case["position"], case["edge"], case["names"])
     if pr:
-        print(f"VIOLATION property={prop} replay=(reproduced) {pr[0]}")
+        print(f"VIOLATION property={prop} replay={__import__('os').environ.get('VERIF_REPLAY_PATH', '-')} {pr[0]}")
         return 1
     print("not reproduced on this tree")
     return 0
